@@ -22,7 +22,7 @@ def render_scenarios(rng, n):
     for k in range(n):
         size = rng.choice([3, 4, 6, 8, 12])
         unbalanced = rng.random() < 0.45
-        allow = ("jmp", "jcc", "jcc", "call", "ret", "ret", "plain") if unbalanced else ("jmp", "jcc", "jcc", "call", "call", "ret", "plain")
+        allow = ("jmp", "jcc", "jcc", "call", "ret", "ret", "plain", "push", "pop") if unbalanced else ("jmp", "jcc", "jcc", "call", "call", "ret", "plain", "pop", "push")
         p = xc.random_program(rng, size, allow=allow, fault_p=0.05)
         regs = [rng.choice([0, 1, 2, 3, rng.getrandbits(64)]) for _ in xc.GPRS]
         pre = xc.reg_setup(regs)
